@@ -179,7 +179,7 @@ prop('C07',
      scenarios=lambda tier: [sc('fault')],
      diverge={'U': {'accept', 'ret', 'post', 'calls', 'oracle'}},
      nontrivial=lambda u: u.get('faults', '') != '',
-     rule='11 history kinds (first use, growth, refresh, stale, bad proof, fork, same-size fork, bad signature, and the size-0 placeholder branch: first use at 0, refresh at 0, proof at 0) x 23 interface-level fault sets (every single and pairs of WriteOps/GetLatest/Set/Close/signer failures, and X = the read inside the write handle returns damaged bytes without an error: cut short, other origin, broken signature, empty, garbage) on the in-memory and the file-backed SQLite store, x 8-11 SQL-driver-level fault sets (begin, query, exec, commit, rollback and pairs) through a wrapping database/sql driver with the production pool size; each followed by fault-free reads (3 s deadline) and an honest continuation step; storage-call script, verdict, returned bytes and state compared with the model; non-trivial = a fault was injected',
+     rule='11 history kinds (first use, growth, refresh, stale, bad proof, fork, same-size fork, bad signature, and the size-0 placeholder branch: first use at 0, refresh at 0, proof at 0) x 23 interface-level fault sets (every single and pairs of WriteOps/GetLatest/Set/Close/signer failures, and X = the read inside the write handle returns damaged bytes without an error: cut short, other origin, broken signature, empty, garbage) on the in-memory and the file-backed SQLite store, x 8-11 SQL-driver-level fault sets (begin, query, exec, commit, rollback and pairs) through a wrapping database/sql driver with the production pool size; (thorough: every subset of up to three interface faults, and pairs of consecutive faulty updates) each followed by fault-free reads (3 s deadline) and an honest continuation step; storage-call script, verdict, returned bytes and state compared with the model; non-trivial = a fault was injected',
      assumptions=['injected driver failures are clean (a failed COMMIT rolls back, as go-sqlite3 does)', 'the deadline is a runtime observation'],
      exhaustive=True)
 
@@ -262,7 +262,7 @@ prop('C06',
      scenarios=lambda tier: [sc('crash')] + ([sc('crash')] if tier == 'thorough' else []) + [sc('fault'), sc('binary')],
      diverge={'CR': None, 'U': {'accept', 'post', 'calls'}},
      nontrivial_line=lambda k, line: k == 'CR' and 'killed=1' in line,
-     rule='for first-use, growth and refresh updates on a file-backed SQLite store opened through a wrapping database/sql driver (production pool size), a child process SIGKILLs itself at every driver-event boundary (entry and completion of begin, query, rows.Next, exec, commit; plus one run to completion); acknowledgements are flushed to a pipe before anything else; a fresh process reopens the file and reports every log\'s checkpoint (verified under log and witness keys) and the log list; compared with the model\'s prediction for that kill point; non-trivial = the process was killed',
+     rule='for first-use, growth and refresh updates (also: first use and refresh of the size-0 placeholder, an update right after a refused one and right after an accepted one by the same process, a store written in the released on-disk format) on a file-backed SQLite store opened through a wrapping database/sql driver (production pool size), a child process SIGKILLs itself at every driver-event boundary (entry and completion of begin, query, rows.Next, exec, commit; plus one run to completion); acknowledgements are flushed to a pipe before anything else; a fresh process reopens the file and reports every log\'s checkpoint (verified under log and witness keys) and the log list; compared with the model\'s prediction for that kill point; non-trivial = the process was killed',
      assumptions=['SQLite journal/fsync behaviour is trusted; SIGKILL does not model power loss'],
      exhaustive=True)
 
